@@ -58,6 +58,7 @@ func checkC11(c *Ctx, r *Report) {
 	checkAztecUnstuff(c, r)
 	checkAztecModeMessage(c, r)
 	checkAztecCut(c, r)
+	checkAztecCorners(c, r)
 	checkAztecDecoderState(c, r)
 	checkAztecReadCode(c, r, "M-READCODE")
 	// the six fields' constants (shared with C04)
@@ -1016,5 +1017,78 @@ func checkAztecReadCode(c *Ctx, r *Report, rule string) {
 				}
 			}
 		}
+	}
+}
+
+// T-AZCORNER: the orientation marks and how getRotation reads them
+func checkAztecCorners(c *Ctx, r *Report) {
+	r.Rule("T-AZCORNER", "EXPECTED_CORNER_BITS holds the four rotations of the orientation marks of ISO 24778 (three, two, one and no dark module at the corners of the mode-message ring: 111 011 100 000 and its cyclic shifts by one corner), and getRotation, folded for both ring lengths (7 and 10), each of the four orientations and every corruption of up to two of the twelve mark modules, returns that orientation", 5)
+	init, p := c.varInit("aztec/detector", "EXPECTED_CORNER_BITS")
+	key := "aztec/detector.EXPECTED_CORNER_BITS"
+	if init == nil {
+		r.AnchorLost("T-AZCORNER", key, "table not found")
+		return
+	}
+	r.Analysed(key)
+	want := []int64{0xee0, 0x1dc, 0x83b, 0x707}
+	tv, ok := listInts(c.eval(p, init))
+	r.Check(ok && fmt.Sprint(tv) == fmt.Sprint(want), "T-AZCORNER", key, c.pos(init.Pos()), fmt.Sprintf("table %#x, the orientation marks give %#x", tv, want))
+	fd, fp := c.funcDeclOf("aztec/detector", "getRotation")
+	if fd == nil {
+		r.AnchorLost("T-AZCORNER", "aztec/detector.getRotation", "function not found")
+		return
+	}
+	for rot := 0; rot < 4; rot++ {
+		rkey := fmt.Sprintf("aztec/detector.getRotation orientation %d", rot)
+		r.Analysed(rkey)
+		bad := ""
+		for _, length := range []int64{7, 10} {
+			var masks []int64
+			masks = append(masks, 0)
+			for a := 0; a < 12; a++ {
+				masks = append(masks, 1<<uint(a))
+				for b := a + 1; b < 12; b++ {
+					masks = append(masks, 1<<uint(a)|1<<uint(b))
+				}
+			}
+			for _, mask := range masks {
+				if bad != "" {
+					break
+				}
+				{
+					F := want[rot] ^ mask
+					cb := ((F << 1) & 0xFFF) | (F >> 11)
+					sides := &Val{K: VList}
+					for i := 0; i < 4; i++ {
+						t := (cb >> uint(9-3*i)) & 7
+						sides.L = append(sides.L, vint(((t>>1)<<uint(length-2))|(t&1)))
+					}
+					h := &rpf{unroll: 100}
+					h.callHook = func(rr *rpf, call *ast.CallExpr, callee types.Object) (*Val, bool) {
+						if fn, ok := callee.(*types.Func); ok && fn.Pkg() != nil && fn.Pkg().Path() == "math/bits" && strings.HasPrefix(fn.Name(), "OnesCount") {
+							v := rr.expr(call.Args[0])
+							if v.K != VInt {
+								rpfFail("OnesCount of a non-constant")
+							}
+							n := int64(0)
+							for x := uint64(v.I) & 0xFFFFFFFF; x != 0; x &= x - 1 {
+								n++
+							}
+							return vint(n), true
+						}
+						return errCtorHook(rr, call, callee)
+					}
+					res, err := c.rpfCall(fd, fp, []*Val{sides, vint(length)}, h)
+					if err != nil {
+						bad = "?" + err.Error()
+						break
+					}
+					if len(res) != 2 || res[1].K != VNil || res[0].K != VInt || res[0].I != int64(rot) {
+						bad = fmt.Sprintf("ring length %d, marks %#03x (orientation %d with the modules %#03x wrong): getRotation answers %v", length, F, rot, mask, res)
+					}
+				}
+			}
+		}
+		reportFold(r, c, "T-AZCORNER", rkey, fd.Pos(), bad)
 	}
 }
